@@ -134,6 +134,11 @@ PrevIsVisitPredecessor ==
     IsCase => LET v == VisitOrder(Steps) IN
               \A k \in 2..Len(v) : PrevNode(Steps, v[k][1], v[k][2]) = v[k - 1]
 
+\* arguments outside the domain of a conversion are refused (ValueError) -- there is no node before (0, 0), no cumulative node
+\* below 0 and no cumulative step below 1
+Refusals == <<[f |-> "FromCumNode", k |-> -1, c |-> 0, n |-> 0], [f |-> "FromCumStep", k |-> 0, c |-> 0, n |-> 0],
+              [f |-> "PrevNode", k |-> 0, c |-> 0, n |-> 0]>>
+
 (* ---------- the case as the real functions must answer it ---------- *)
 Case ==
     LET v == VisitOrder(Steps) IN
@@ -148,5 +153,6 @@ Case ==
      hasBurnup |-> TotalSteps(Steps) > 0,
      visit |-> v,                                        \* visit[k] has cumulative node number k-1
      stepStarts |-> StepOrder(Steps),                    \* stepStarts[s] is where cumulative step s starts
-     prev |-> [k \in 1..(Len(v) - 1) |-> PrevNode(Steps, v[k + 1][1], v[k + 1][2])]]
+     prev |-> [k \in 1..(Len(v) - 1) |-> PrevNode(Steps, v[k + 1][1], v[k + 1][2])],
+     refused |-> Refusals]
 =====================================================================================================
